@@ -53,6 +53,7 @@ ASSUMPTIONS = [
 REQUIRED_MONITORS = {
     "crash_points": 300,
     "piv_unique": 5000,
+    "request_nonce_once": 1000,
     "disk_bound": 5000,
     "atomic_json": 1000,
     "strictly_increasing": 5000,
@@ -145,6 +146,7 @@ class Oracle:
         self.path = path
         self.case = case
         self.pivs = {}
+        self.reused = {}  # request number -> (lifetime, how) of the message protected under that request's nonce
         self.life = 0
         self.life_pivs = []
         self.prev_stop = None
@@ -185,6 +187,15 @@ class Oracle:
         self.records.append(["issued", piv, how])
         if piv is None:
             rep.count("responses_reusing_request_nonce")
+            # the nonce of the request (peer's ID, its sequence number) under OUR sender key: usable for one
+            # message only, over all lifetimes of this context directory
+            if "@" in how:
+                n = int(how.rsplit("@", 1)[1])
+                rep.monitor("request_nonce_once")
+                if n in self.reused:
+                    rep.violation("nonce/request-nonce-reused/" + how.rsplit("@", 1)[0] + ("/same-lifetime" if self.reused[n][0] == self.life else "/after-" + str(self.prev_stop)), "a second message was protected under the nonce of the same request (no Partial IV of its own): an AEAD nonce issued twice under the sender key", self.witness(request_number=n, first=self.reused[n], second=(self.life, how)), self.case)
+                else:
+                    self.reused[n] = (self.life, how)
             return
         rep.monitor("piv_unique")
         if piv in self.pivs:
@@ -362,6 +373,20 @@ class Runner:
             rep.monitor(mon)
             try:
                 life.ctx.unprotect(h.incoming(wire))
+            except h.oscore.ReplayErrorWithEcho as e:
+                rep.seen("old_request_rejected_with", "%s/%s/%s" % (orc.prev_stop, phase, type(e).__name__))
+                # the server answers with a protected 4.01 carrying the Echo value: that message is issued under
+                # some nonce, too (it goes through the same records as every other protected message)
+                try:
+                    resp = e.to_message()
+                except h.oscore.ContextUnavailable as e2:
+                    orc.refused("echo-4.01", e2)
+                    continue
+                except Exception as e2:  # noqa: BLE001
+                    orc.protect_raised("echo-4.01", e2)
+                    continue
+                life._issued("echo-4.01", resp, n)
+                continue
             except h.oscore.ProtectionInvalid as e:
                 rep.seen("old_request_rejected_with", "%s/%s/%s" % (orc.prev_stop, phase, type(e).__name__))
                 continue
